@@ -295,7 +295,47 @@ def rule_retry(ctx: Ctx) -> None:
     ctx.check(ok, "retry-gives-up", td or ot, (td or ot).node, "retry cache times out after the given timeout", "retry cache timeout is not the configured one")
 
 
+HEARTBEAT_CALLERS = {
+    # function -> why refreshing activity there is legitimate (traffic was received and authenticated / accepted)
+    "PythonCryptoEndpoint.process_cell": "cell received for this circuit / relay",
+    "TunnelCommunity.on_data": "data received over our own circuit",
+    "TunnelCommunity.on_ping": "ping received on an exit socket",
+    "TunnelCommunity.on_pong": "pong received for our circuit",
+    "TunnelCommunity.on_test_request": "speed-test request received on an exit socket",
+    "TunnelExitSocket.sendto": "data left through the exit socket",
+    "HiddenTunnelCommunity.on_raw_data": "e2e data received",
+}
+
+
+def rule_heartbeat(ctx: Ctx) -> None:
+    repo = ctx.repo
+    n = 0
+    for m, fi, c in repo.callers_of_name("beat_heart"):
+        if fi is None or not m.relpath.startswith("ipv8/messaging/anonymization/"):
+            continue
+        n += 1
+        ctx.check(fi.qualname in HEARTBEAT_CALLERS, "sweep-coverage", fi, c, f"beat_heart in {fi.qualname}: {HEARTBEAT_CALLERS.get(fi.qualname, '?')}",
+                  f"{fi.qualname} refreshes last_activity (`{norm(c)}`) although it is not a receive path: own traffic (e.g. periodic pings sent every 7.5 s) keeps "
+                  "an abandoned entry 'active', so the inactivity sweep never reclaims it")
+    ctx.floor("sweep-coverage.heartbeat-sites", n, 5)
+    for m, fi, a in repo.attribute_uses("last_activity"):
+        if isinstance(a.ctx, ast.Store) and fi is not None:
+            ctx.check(fi.qualname in ("RoutingObject.__init__", "RoutingObject.beat_heart"), "sweep-coverage", fi, enclosing_stmt(a),
+                      "last_activity written only by the constructor and beat_heart", "last_activity is written outside beat_heart")
+    # opened outside sockets are stored on the exit socket in the statement that opens them (so close() can always find them)
+    for fi in [f for f in repo.module("ipv8/messaging/anonymization/exit_socket.py").all_functions if f.qualname.startswith("TunnelExitSocket.enable")]:
+        for c in calls(fi):
+            if call_name(c) == "open" and isinstance(c.func.value, ast.Call) and chain(c.func.value.func) == "TunnelProtocol":
+                st = enclosing_stmt(c)
+                ok = isinstance(st, ast.Assign) and len(st.targets) == 1 and (chain(st.targets[0]) or "").startswith("self.transport_") and \
+                    isinstance(st.value, ast.Await) and st.value.value is c
+                ctx.check(ok, "remove-removes", fi, st, "each opened transport is assigned to self.transport_* in the statement that awaits its open()",
+                          "an opened outside socket is held only in a local/gather result until later: if the task is cancelled (circuit removed, unload) or the other "
+                          "open fails, close() never sees it and the UDP socket leaks")
+
+
 def run(ctx: Ctx) -> None:
+    rule_heartbeat(ctx)
     rule_sweep(ctx)
     rule_remove_removes(ctx)
     rule_destroy_propagates(ctx)
